@@ -168,6 +168,13 @@ impl<'r> Gen<'r> {
         let w_struct = if self.defs.structs.is_empty() { 0 } else { 8 };
         let w_enum = if self.defs.enums.is_empty() { 0 } else { 7 };
         let w_comp = if depth == 0 { 0 } else { 1 };
+        // arrays of zero-sized elements (field-less structs) get their own share
+        if depth > 0 && self.rng.chance(1, 10) {
+            if let Some(zi) = self.defs.structs.iter().position(|sd| sd.fields.is_empty()) {
+                let n = 1 + self.rng.usize_below(self.cfg.max_array);
+                return Ty::Array(Box::new(Ty::Struct(zi)), n);
+            }
+        }
         match self.rng.weighted(&[60, 14 * w_comp, 12 * w_comp, w_struct, w_enum]) {
             0 => self.gen_prim_ty(),
             1 => {
@@ -192,7 +199,8 @@ impl<'r> Gen<'r> {
             let make_struct = s_left > 0 && (self.rng.bool() || total - k <= s_left);
             if make_struct {
                 s_left -= 1;
-                let nf = 1 + self.rng.usize_below(3);
+                // (rarely a field-less struct: a zero-sized type that can be written as a value)
+                let nf = if self.rng.chance(1, 10) { 0 } else { 1 + self.rng.usize_below(3) };
                 let mut names: Vec<&str> = FIELD_NAMES.to_vec();
                 self.rng.shuffle(&mut names);
                 let fields = (0..nf).map(|i| (names[i].to_string(), self.gen_ty(1))).collect();
@@ -975,6 +983,9 @@ impl<'r> Gen<'r> {
                 Ty::Struct(si) => {
                     self.note("assign-through-struct-field");
                     let n = self.defs.structs[si].fields.len();
+                    if n == 0 {
+                        break;
+                    }
                     let k = self.rng.usize_below(n);
                     accs.push(Acc::Field(si, k));
                     cur = self.defs.structs[si].fields[k].1.clone();
@@ -1087,8 +1098,16 @@ impl<'r> Gen<'r> {
                     return None;
                 }
                 self.note("for");
-                let n = 1 + self.rng.usize_below(self.cfg.max_array);
+                let mut n = 1 + self.rng.usize_below(self.cfg.max_array);
                 let mut et = self.gen_ty(1);
+                // often loop over an array that is already in scope (whatever its element type)
+                let arrays: Vec<Var> = self.visible_vars().into_iter().filter(|v| v.name != "_" && matches!(v.ty, Ty::Array(..))).collect();
+                if !arrays.is_empty() && self.rng.chance(1, 2) {
+                    if let Ty::Array(e0, n0) = &self.rng.pick(&arrays).ty {
+                        et = (**e0).clone();
+                        n = *n0;
+                    }
+                }
                 let mut aty = Ty::Array(Box::new(et.clone()), n);
                 let mut places = self.places_of(&aty);
                 if self.contains_struct(&et) && places.is_empty() {
@@ -1187,6 +1206,11 @@ impl<'r> Gen<'r> {
 
     fn gen_fn(&mut self, name: String, is_pub: bool) -> FnDef {
         let saved = std::mem::take(&mut self.scopes);
+        // names are numbered per function in most programs, so that parameters and locals of a
+        // callee collide with the names of its callers' variables (scoping bugs only show then)
+        if self.rng.chance(3, 4) {
+            self.next_id = 0;
+        }
         self.cost = 0;
         self.mult = 1;
         self.heavy_budget = 1;
@@ -1194,7 +1218,11 @@ impl<'r> Gen<'r> {
         let mut params = vec![];
         self.scopes.push(vec![]);
         for _ in 0..np {
-            let ty = self.gen_ty(2);
+            let mut ty = self.gen_ty(2);
+            if params.is_empty() && ty.bits(&self.defs) == 0 {
+                // a function whose parameters are all zero-sized cannot be compiled (by design)
+                ty = self.gen_prim_ty();
+            }
             let pname = self.fresh("p");
             let mutable = self.rng.chance(1, 3);
             self.declare(&pname, ty.clone(), mutable);
